@@ -17,14 +17,14 @@ SEQ_NOTE = ('Trusted base: ASan/UBSan/_GLIBCXX_ASSERTIONS as crash oracles, the 
 CLAIMS = {
     'C01': ('vrt', 'stateless model checking of the implementation (preemption-bounded DFS + HB-prefix cache, unbounded for small harnesses)',
             'Every interleaving (bound 2 quick / 3 thorough; all interleavings for the two-resolver harnesses without waiter) of 1-3 competing resolvers '
-            'of every kind (value, exception, drop, moved promise called / dying, move-assignment over it, async coroutine bound with start(promise)) with a '
+            'of every kind (value, exception, drop, moved promise called / dying, move-assignment over it, bind(payload), async coroutine bound with start(promise)) with a '
             'waiter (wait, coroutine, blocking and awaited has_value) and the final promise destruction, for int / instance-counted / move-only / void / '
             'reference results, is executed on the real future/promise; exactly-one-winner, payload, stability, loser arguments and loser coroutine '
             'untouched, waiter result, value lifetime and heap are checked in each.', '5/C01'),
     'C02': ('vrt', 'stateless model checking of the implementation (preemption-bounded DFS + HB-prefix cache; all interleavings for one waiter)',
             'Every interleaving within the bound of 1-3 waiters of every kind (coroutine, wait, sync, pre-configured callback awaiter, callback function '
             'through co_awaiter::await_suspend(fn,ctx), call_fn_future_awaiter, awaited has_value, poller) against every resolver kind (value, exception, '
-            'drop, promise destruction, completion of an async coroutine); before/during/after-resolution subscription arises from the schedule. '
+            'drop, promise destruction, assignment over the promise, completion of an async coroutine), re-used and re-arming awaiters, throwing factories; before/during/after-resolution subscription arises from the schedule. '
             'Exactly-once release, never before the result is set, complete result at release, no waiter left, no access to a dead awaiter (heap oracle).', '5/C02'),
     'C03': ('vrt', 'stateless model checking with a C++20 happens-before race oracle on every explored execution',
             'The threaded harnesses of the other properties (13 harness TUs: future/promise, waiters, async, mutex, queues, thread pool incl. submitters racing '
@@ -45,9 +45,9 @@ CLAIMS = {
             'lifetime and frame allocation balance. vrt: join / start / future+coroutine waiter / thread_pool::run with the gate opened by another thread, '
             'start(promise) racing a direct call of the same promise, bound 2/3.', '5/C04'),
     'C05': ('seqx', 'exhaustive program enumeration; every event checked online against a reference scheduler (bounded model checking of schedules)',
-            'Every well-formed program of N scripted coroutines over a 17-step alphabet (pause, resolve discard/await, await, lock, release, queue push/pop, '
-            'detach, start(), co_await child, merged suspend points, create_suspend_point; N=2 x <=3 steps, N=3 x <=2 steps quick; more thorough) entered from '
-            'normal code and from a coroutine, plus the wide wake-up family (one resolution readies 1-6 coroutines), runs on the real library; each '
+            'Every well-formed program of N scripted coroutines over an 18-step alphabet (pause, resolve discard/await, await, lock, release, queue push/pop, '
+            'detach, start(), co_await child, merged suspend points, create_suspend_point, nested activation; N=2 x <=3 steps, N=3 x <=2 steps quick; more thorough) entered from '
+            'normal code, from a coroutine, from a destructor during stack unwinding and handle by handle through coro_queue::resume, plus the wide wake-up family (one resolution readies 1-6 coroutines), runs on the real library; each '
             'start/resume/finish event must be allowed by a reference scheduler that encodes run-to-suspension, FIFO order, pause round-robin, exactly-once '
             'resumption and full drain, leaving open only what the property leaves open.', '5/C05'),
     'C06': ('seqx', 'explicit-state breadth-first search over operation histories on real objects, deduplicated by a canonical key',
